@@ -146,7 +146,7 @@ def observe_impl(m):
     # the shortest segment of the structure, from the segment table itself (the joining rule of C12 refers to it);
     # what the implementation *takes* as the shortest segment is kept separately (upstream datum of the model tie)
     true_min = min(math.dist([float(x) for x in sg.p1], [float(x) for x in sg.p2]) for g in m.geo for sg in g.segments)
-    return dict(objs=objs, pulses=pulses, min_seglen=true_min, min_seglen_impl=float(m.min_seglen))
+    return dict(objs=objs, pulses=pulses, min_seglen=true_min, min_seglen_impl=float(m.min_seglen), ground=bool(m.media))
 
 
 def model_request(spec, obs, m, queries=()):
